@@ -67,6 +67,10 @@ func structTypeX(r *rand.Rand, ls []xLabel, ptr bool) reflect.Type {
 		}
 		if l.Sub != "" {
 			tags = append(tags, "subtype="+l.Sub)
+			if len(tags) == 3 && i%2 == 1 {
+				// the options of a tag come in any order
+				tags[1], tags[2] = tags[2], tags[1]
+			}
 		}
 		tag := reflect.StructTag("")
 		if !(len(tags) == 1 && tags[0] == "") || r.Intn(2) == 0 {
@@ -837,8 +841,93 @@ func init() {
 	})
 }
 
+// runC16NilFromSet: nil values are ignored also when they come out of a value
+// set. A set (filled from a signature or a result) holds an interface-typed
+// value whose content is nil; its Args() are passed after (or, as defaults,
+// before) a real value for the same name: the real value is the one injected.
+func runC16NilFromSet(c *CaseCtx, r *rand.Rand) (res CaseResult) {
+	res.NonTrivial = true
+	asDefault := r.Intn(2) == 0
+	viaResult := r.Intn(2) == 0
+	res.Key = fmt.Sprintf("nil-values-from-a-value-set default=%v result=%v", asDefault, viaResult)
+	res.obs("family.nil-values-from-a-value-set", 1)
+	det := map[string]interface{}{"case": res.Key}
+	defer func() {
+		if p := recover(); p != nil {
+			res.violate("C06", "panic/"+crashKey(fmt.Sprint(p)), fmt.Sprintf("panicked: %v", p), det)
+		}
+	}()
+	vals := []am.Value{{Name: "alpha", Type: types[tI0]}, {Type: errT}, {Name: "beta", Type: types[1]}}
+	set, err := am.NewValueSet(vals)
+	if err != nil {
+		res.Skip = "newvalueset"
+		return res
+	}
+	if viaResult {
+		// the producer returns a nil I0, a nil error value and a real T1
+		prod, _ := am.BuildFunc(nil, set, func(in, out *am.ValueSet) error {
+			out.Named("beta").Value = reflect.ValueOf(T1{ID: 9})
+			return nil
+		})
+		fresh, _ := am.NewValueSet(vals)
+		if err := fresh.FromResult(prod.Call()); err != nil {
+			res.Skip = "fromresult"
+			return res
+		}
+		set = fresh
+	} else {
+		sig := set.Signature()
+		sv := make([]reflect.Value, len(sig))
+		for i, t := range sig {
+			sv[i] = reflect.Zero(t)
+		}
+		if len(sig) == 1 && sig[0].Kind() == reflect.Struct {
+			st := reflect.New(sig[0]).Elem()
+			st.Field(3).Set(reflect.ValueOf(T1{ID: 9}))
+			sv[0] = st
+		}
+		if err := set.FromSignature(sv); err != nil {
+			res.Skip = "fromsignature"
+			return res
+		}
+	}
+	var gotA, gotB int64
+	fn := func(in struct {
+		am.Struct
+		Alpha T0
+		Beta  T1
+	}) {
+		gotA, gotB = in.Alpha.ID, in.Beta.ID
+	}
+	real := am.Named("alpha", T0{ID: 5})
+	var rr am.Result
+	if asDefault {
+		// the set's values are the defaults, the real value comes at Call
+		f, err := am.NewFunc(fn, set.Args()...)
+		if err != nil {
+			res.violate("C16", "nil-value-not-ignored", "NewFunc rejected default options that hold nil values: "+err.Error(), det)
+			return res
+		}
+		rr = f.Call(real)
+	} else {
+		f, _ := am.NewFunc(fn, real)
+		rr = f.Call(set.Args()...)
+	}
+	res.Evals++
+	if rr.Err() != nil {
+		res.violate("C16", "nil-value-not-ignored", "a nil value handed over through ValueSet.Args() made the call fail: "+firstLine(errStr(rr.Err())), det)
+	} else if gotA != 5 || gotB != 9 {
+		res.violate("C16", "nil-value-not-ignored", fmt.Sprintf("alpha=#%d beta=#%d, want #5 and #9: a nil value from a value set replaced a real one", gotA, gotB), det)
+	}
+	res.Sample = det
+	return res
+}
+
 func runC16(c *CaseCtx) (res CaseResult) {
 	r := caseRand(c.Seed, "C16", c.Idx)
+	if c.Idx%31 == 4 {
+		return runC16NilFromSet(c, r)
+	}
 	names := []string{"alpha", "beta", "gamma", "dx", "ärger", "émile"}
 	var ls []xLabel
 	usedN := map[string]bool{}
@@ -1082,6 +1171,19 @@ func runC16(c *CaseCtx) (res CaseResult) {
 				res.violate("C16", "nil-default-accepted", "a nil default option was accepted by NewFunc and by Call", det)
 			}
 		}
+		// the same for a run-once function that has already executed: its
+		// memoized result does not make a nil option acceptable
+		if c.Idx%3 == 0 {
+			if fonce, err := am.NewFunc(fn.Interface(), am.FuncOnce()); err == nil {
+				if r1 := fonce.Call(single...); r1.Err() == nil {
+					res.Evals++
+					if r2 := fonce.Call(withNil...); r2.Err() == nil {
+						res.violate("C16", "nil-option-accepted", "a nil option did not yield an error result (run-once function that has already executed)", det)
+					}
+					res.obs("nil_option_after_memoized_execution", 1)
+				}
+			}
+		}
 	}
 	// defaults taken from ONE caller-owned list (prefixes of a slice with
 	// spare capacity): calls on one Func must not disturb the defaults of
@@ -1306,6 +1408,118 @@ func runC17Histories(c *CaseCtx, r *rand.Rand) (res CaseResult) {
 			res.violate("C06", "panic/result-"+crashKey(fmt.Sprint(p)), fmt.Sprintf("panicked: %v", p), map[string]interface{}{"case": res.Key})
 		}
 	}()
+	if (c.Idx/12)%6 == 4 {
+		// a function built over a set made with NewValueSet returns ONE
+		// struct; its interface-typed field holds what the callback stored --
+		// a typed nil pointer is a non-nil interface value, a zero struct
+		// value is that value
+		res.Key = "built-over-a-new-value-set-with-typed-nil-output"
+		det := map[string]interface{}{"case": res.Key}
+		set, err := am.NewValueSet([]am.Value{{Name: "cause", Type: errT}, {Name: "n", Type: types[0]}, {Type: types[1]}})
+		if err != nil {
+			res.Skip = "newvalueset"
+			return res
+		}
+		built, err := am.BuildFunc(nil, set, func(in, out *am.ValueSet) error {
+			out.Named("cause").Value = reflect.ValueOf((*concErr)(nil))
+			out.Named("n").Value = reflect.ValueOf(T0{})
+			out.Typed(types[1]).Value = reflect.ValueOf(T1{ID: 31})
+			return nil
+		})
+		if err != nil {
+			res.violate("C15", "build-rejected", "BuildFunc rejected a value set: "+err.Error(), det)
+			return res
+		}
+		rr := built.Call()
+		res.Evals++
+		if rr.Err() != nil || rr.Len() != 1 {
+			res.violate("C17", "len", fmt.Sprintf("Len() = %d, Err() = %v for a built function returning one struct", rr.Len(), rr.Err()), det)
+			return res
+		}
+		sv := reflect.ValueOf(rr.Out(0))
+		found := false
+		for i := 0; sv.Kind() == reflect.Struct && i < sv.NumField(); i++ {
+			if sv.Field(i).Type() == errT {
+				found = true
+				if p, ok := sv.Field(i).Interface().(*concErr); !ok || p != nil {
+					res.violate("C17", "out", fmt.Sprintf("the error-typed field of Out(0) holds %#v, the callback stored a typed nil pointer (*concErr)(nil)", sv.Field(i).Interface()), det)
+				}
+			}
+			if sv.Field(i).Type() == types[1] {
+				if id, _ := idOf(sv.Field(i)); id != 31 {
+					res.violate("C17", "out", fmt.Sprintf("the T1 field of Out(0) carries #%d, want #31", id), det)
+				}
+			}
+		}
+		if !found {
+			res.violate("C17", "out", fmt.Sprintf("Out(0) = %T has no error-typed field", rr.Out(0)), det)
+		}
+		res.obs("typed_nil_pointer_outputs", 1)
+		res.Sample = det
+		return res
+	}
+	if (c.Idx/12)%6 == 5 {
+		// two functions built over separately made value sets of ONE shape: A
+		// is called first and sets every output; B's callback then sets
+		// nothing (or calls A as a helper after setting its own outputs) --
+		// B's results are B's own
+		nested := r.Intn(2) == 0
+		res.Key = fmt.Sprintf("two-built-functions-over-same-shaped-sets nested=%v", nested)
+		det := map[string]interface{}{"case": res.Key}
+		mkSet := func() *am.ValueSet {
+			s, _ := am.NewValueSet([]am.Value{{Name: "n", Type: types[0]}, {Type: types[1]}})
+			return s
+		}
+		fa, errA := am.BuildFunc(nil, mkSet(), func(in, out *am.ValueSet) error {
+			out.Named("n").Value = reflect.ValueOf(T0{ID: 41})
+			out.Typed(types[1]).Value = reflect.ValueOf(T1{ID: 42})
+			return nil
+		})
+		fb, errB := am.BuildFunc(nil, mkSet(), func(in, out *am.ValueSet) error {
+			if nested {
+				out.Named("n").Value = reflect.ValueOf(T0{ID: 51})
+				out.Typed(types[1]).Value = reflect.ValueOf(T1{ID: 52})
+				fa.Call()
+			}
+			return nil
+		})
+		if errA != nil || errB != nil {
+			res.Skip = "buildfunc"
+			return res
+		}
+		ra := fa.Call()
+		rb := fb.Call()
+		res.Evals += 2
+		ids := func(rr am.Result) (int64, int64) {
+			if rr.Err() != nil || rr.Len() != 1 {
+				return -1, -1
+			}
+			sv := reflect.ValueOf(rr.Out(0))
+			var a, b int64 = -1, -1
+			for i := 0; sv.Kind() == reflect.Struct && i < sv.NumField(); i++ {
+				switch sv.Field(i).Type() {
+				case types[0]:
+					a, _ = idOf(sv.Field(i))
+				case types[1]:
+					b, _ = idOf(sv.Field(i))
+				}
+			}
+			return a, b
+		}
+		if a, b := ids(ra); a != 41 || b != 42 {
+			res.violate("C17", "out", fmt.Sprintf("function A returned #%d, #%d, its callback produced #41, #42", a, b), det)
+		}
+		wa, wb := int64(0), int64(0)
+		if nested {
+			wa, wb = 51, 52
+		}
+		if a, b := ids(rb); a != wa || b != wb {
+			res.violate("C17", "out", fmt.Sprintf("function B returned #%d, #%d, its callback produced #%d, #%d (A's are #41, #42)", a, b, wa, wb), det)
+		}
+		res.obs("same_shaped_built_functions", 1)
+		res.Sample = det
+		return res
+	}
 	if r.Intn(2) == 0 {
 		k := r.Intn(3)
 		res.Key = fmt.Sprintf("built-over-positional-set-ending-in-error k=%d", k)
@@ -1338,11 +1552,16 @@ func runC17Histories(c *CaseCtx, r *rand.Rand) (res CaseResult) {
 			cbErr = errors.New("callback failure")
 		}
 		warnNil := r.Intn(3) == 0
+		// a third form of the error-typed output: a typed nil pointer, which
+		// is a non-nil error value
+		warnTypedNil := !warnNil && (c.Idx/12)%3 == 1
 		built, err := am.BuildFunc(nil, set, func(in, out *am.ValueSet) error {
 			for i := 0; i < k; i++ {
 				out.Typed(types[i]).Value = mk(i, int64(100+i))
 			}
-			if !warnNil {
+			if warnTypedNil {
+				out.Typed(errT).Value = reflect.ValueOf((*concErr)(nil))
+			} else if !warnNil {
 				out.Typed(errT).Value = reflect.ValueOf(&warn).Elem()
 			} else {
 				out.Typed(errT).Value = reflect.Zero(errT)
@@ -1368,7 +1587,12 @@ func runC17Histories(c *CaseCtx, r *rand.Rand) (res CaseResult) {
 					}
 				}
 				last := rr.Out(k)
-				if (!warnNil && last != error(warn)) || (warnNil && last != nil) {
+				if warnTypedNil {
+					if p, ok := last.(*concErr); !ok || p != nil {
+						res.violate("C17", "out", fmt.Sprintf("Out(%d) = %#v, the callback produced a typed nil pointer (*concErr)(nil) for the error-typed output", k, last), det)
+					}
+					res.obs("typed_nil_pointer_outputs", 1)
+				} else if (!warnNil && last != error(warn)) || (warnNil && last != nil) {
 					res.violate("C17", "out", fmt.Sprintf("Out(%d) = %v, want the error-typed ordinary output %v", k, last, map[bool]interface{}{false: warn, true: nil}[warnNil]), det)
 				}
 			}
